@@ -2,6 +2,7 @@ package udp
 
 import (
 	"context"
+	"errors"
 	"net"
 	"sync"
 	"time"
@@ -9,6 +10,9 @@ import (
 	"github.com/postalsys/muti-metroo/internal/crypto"
 	"github.com/postalsys/muti-metroo/internal/identity"
 )
+
+// errClosed is returned by Encrypt and Decrypt once the association is closed.
+var errClosed = errors.New("association closed")
 
 // AssociationState represents the state of a UDP association.
 type AssociationState int
@@ -204,6 +208,12 @@ func (a *Association) Encrypt(plaintext []byte) ([]byte, error) {
 	a.mu.RLock()
 	defer a.mu.RUnlock()
 
+	// Close wipes the key; a payload read just before must not fall through
+	// to the keyless path and leave in the clear.
+	if a.closed {
+		return nil, errClosed
+	}
+
 	if a.SessionKey == nil {
 		return plaintext, nil
 	}
@@ -218,6 +228,10 @@ func (a *Association) Encrypt(plaintext []byte) ([]byte, error) {
 func (a *Association) Decrypt(ciphertext []byte) ([]byte, error) {
 	a.mu.RLock()
 	defer a.mu.RUnlock()
+
+	if a.closed {
+		return nil, errClosed
+	}
 
 	if a.SessionKey == nil {
 		return ciphertext, nil
